@@ -67,7 +67,13 @@ Types == {"tm", "bsc", "eth"}
 (*                 value if that differs, else by another one)                *)
 (*   empty         ICS-23: zero bytes; MPT: the JSON object {}               *)
 (*   garbage       one byte flipped inside the proof material                *)
-Variants == {"genuine", "relabelled", "otherStore", "truncated", "reordered", "valueSwapped", "empty", "garbage"}
+(*   shadowKey     the key reported with the proof is the queried key with   *)
+(*                 one extra leading byte, and the proof material proves the *)
+(*                 claimed value at the location that longer key hashes to   *)
+(*                 (MPT: a real leaf of the storage trie at                   *)
+(*                 keccak256(0x01 || slot); ICS-23: the key label gets the   *)
+(*                 extra byte) - nothing about the protocol-defined key      *)
+Variants == {"genuine", "relabelled", "otherStore", "truncated", "reordered", "valueSwapped", "empty", "garbage", "shadowKey"}
 
 KeyOf(x) == <<x.kind, x.s, x.d, x.n>>
 FactKey(f) == <<f[1], f[2], f[3], f[4]>>
